@@ -303,8 +303,8 @@ fn child_crate_dir() -> Result<std::path::PathBuf, String> {
 }
 
 /// Do the generated bindings compile when embedded like /repo/e2e_tests/test_host_funcs does, for a host file
-/// with `use m as p` and for two #host types of one name in two modules?  Recorded as known-finding ids (the
-/// disposition is the coordinator's), never silently: a probe that cannot run is a note.
+/// with `use m as p` (D104) and for two #host types of one name in two modules (D105)?  Hard checks: a failure is
+/// reported with the host files as the concrete input; a probe that cannot run is a note.
 fn probe_stage(ctx: &mut Ctx, gen_dir: &std::path::Path) {
     let Some(harness) = gen_dir.parent() else { return };
     let manifest = std::path::Path::new(env!("CARGO_MANIFEST_DIR"));
@@ -353,10 +353,32 @@ fn probe_stage(ctx: &mut Ctx, gen_dir: &std::path::Path) {
                 if err.contains("generate_host_function_enum failed") || err.contains("panicked") {
                     ctx.spec_fail(format!("probe {feature}: the generator itself fails ({what}): {}", err.lines().filter(|l| l.contains("panicked") || l.contains("failed")).take(2).collect::<Vec<_>>().join(" | ")));
                 } else {
-                    let first = err.lines().find(|l| l.starts_with("error")).unwrap_or("error").to_string();
+                    let errs: Vec<&str> = err.lines().filter(|l| l.starts_with("error[")).collect();
+                    let mut uniq: Vec<&str> = vec![];
+                    for e in errs {
+                        if !uniq.contains(&e) {
+                            uniq.push(e);
+                        }
+                    }
+                    let first = if uniq.is_empty() { "error".to_string() } else { uniq.join(" | ") };
                     ctx.count(&format!("probe:{feature}:generated-bindings-do-not-compile"));
-                    ctx.notes.push(format!("probe {feature} ({what}): generated bindings do not compile in the e2e embedding: {first}"));
-                    ctx.known_findings.push(id.to_string());
+                    let mut files = vec![];
+                    if let Ok(rd) = std::fs::read_dir(dir.join(format!("abra_{feature}"))) {
+                        let mut names: Vec<_> = rd.flatten().map(|e| e.path()).collect();
+                        names.sort();
+                        for pth in names {
+                            files.push(format!(
+                                "{}: {}",
+                                pth.file_name().unwrap().to_string_lossy(),
+                                std::fs::read_to_string(&pth).unwrap_or_default().trim().replace('\n', " ; ")
+                            ));
+                        }
+                    }
+                    ctx.spec_fail(format!(
+                        "[{id}] {what}: the bindings generate_host_function_enum(\"host.abra\") writes for these files do not compile when embedded as \
+                         /repo/e2e_tests/test_host_funcs does (`mod generated; use generated::*;`): {first} -- files: {}",
+                        files.join(" || ")
+                    ));
                 }
             }
         }
